@@ -108,6 +108,9 @@ func stored(state int, prop string, l int, baseLen int) ([]string, bool) {
 
 type config struct {
 	ContactLang int                 `json:"contact_lang"`
+	// >= 0: the flow first sends a message, then enters a child flow which sets the contact language to this one
+	// (0 clears it) and completes; everything observed happens afterwards, in the parent run, in the same sprint
+	ChildLang int `json:"child_lang"`
 	Allowed     []int               `json:"allowed"`
 	BaseText    string              `json:"text"`
 	BaseAtts    []string            `json:"attachments"`
@@ -124,6 +127,14 @@ const (
 	sendUUID   = "33333333-3333-4333-8333-333333333331"
 	setresUUID = "33333333-3333-4333-8333-333333333332"
 	bcastUUID  = "33333333-3333-4333-8333-333333333333"
+	preUUID    = "33333333-3333-4333-8333-333333333334"
+	enterUUID  = "33333333-3333-4333-8333-333333333335"
+	setlangUUID = "33333333-3333-4333-8333-333333333336"
+	childFlowUUID = "11111111-1111-4111-8111-111111111112"
+	preNodeUUID = "22222222-2222-4222-8222-222222222220"
+	childNodeUUID = "22222222-2222-4222-8222-222222222229"
+	exitPreUUID = "66666666-6666-4666-8666-666666666669"
+	exitChildUUID = "66666666-6666-4666-8666-666666666668"
 	caseUUID   = "44444444-4444-4444-8444-444444444441"
 	catBobUUID = "55555555-5555-4555-8555-555555555551"
 	catOthUUID = "55555555-5555-4555-8555-555555555552"
@@ -191,7 +202,30 @@ func buildAssets(c *config) []byte {
 			},
 		},
 	}
-	b, err := json.Marshal(map[string]any{"flows": []any{flow}})
+	flowList := []any{flow}
+	if c.ChildLang >= 0 {
+		// the parent localizes something first (a message), enters the child, and continues with the nodes above
+		nodes := flow["nodes"].([]any)
+		pre := map[string]any{
+			"uuid": preNodeUUID,
+			"actions": []any{
+				map[string]any{"uuid": preUUID, "type": "send_msg", "text": "before"},
+				map[string]any{"uuid": enterUUID, "type": "enter_flow", "flow": map[string]any{"uuid": childFlowUUID, "name": "Child"}},
+			},
+			"exits": []any{map[string]any{"uuid": exitPreUUID, "destination_uuid": nodeUUID}},
+		}
+		flow["nodes"] = append([]any{pre}, nodes...)
+		child := map[string]any{
+			"uuid": childFlowUUID, "name": "Child", "spec_version": "13.6.1", "language": langCodes[baseLang], "type": "messaging",
+			"nodes": []any{map[string]any{
+				"uuid":    childNodeUUID,
+				"actions": []any{map[string]any{"uuid": setlangUUID, "type": "set_contact_language", "language": langCodes[c.ChildLang]}},
+				"exits":   []any{map[string]any{"uuid": exitChildUUID}},
+			}},
+		}
+		flowList = append(flowList, child)
+	}
+	b, err := json.Marshal(map[string]any{"flows": flowList})
 	if err != nil {
 		panic(err)
 	}
@@ -261,6 +295,7 @@ func run(c *config) (*observed, error) {
 		switch ev := e.(type) {
 		case *events.MsgCreatedEvent:
 			nmsg++
+			o.Atts, o.QRs = nil, nil
 			o.Text = ev.Msg.Text()
 			for _, a := range ev.Msg.Attachments() {
 				o.Atts = append(o.Atts, string(a))
@@ -287,8 +322,12 @@ func run(c *config) (*observed, error) {
 	if o.Bcast == nil {
 		return nil, fmt.Errorf("no broadcast_created event")
 	}
-	if nmsg != 1 {
-		return nil, fmt.Errorf("expected 1 msg_created, got %d", nmsg)
+	wantMsgs := 1
+	if c.ChildLang >= 0 {
+		wantMsgs = 2 // the message sent before the child flow, then the observed one (the last)
+	}
+	if nmsg != wantMsgs {
+		return nil, fmt.Errorf("expected %d msg_created, got %d", wantMsgs, nmsg)
 	}
 	if o.Lang < 0 {
 		return nil, fmt.Errorf("unknown locale language")
@@ -298,15 +337,23 @@ func run(c *config) (*observed, error) {
 
 // ---- direct oracle: the sentence of C18, in Go, independent of the Coq model -----------------------
 
+// the contact language in force when the observed items are localized
+func (c *config) effLang() int {
+	if c.ChildLang >= 0 {
+		return c.ChildLang
+	}
+	return c.ContactLang
+}
+
 func nonEmpty(arr []string) bool { return arr != nil && len(arr) > 0 && !(len(arr) == 1 && arr[0] == "") }
 
 // pick returns what the statement prescribes for one property: value and language used
 func pick(c *config, prop string, native []string) ([]string, int) {
 	var cands []int
-	if c.ContactLang != 0 {
+	if c.effLang() != 0 {
 		for _, a := range c.Allowed {
-			if a == c.ContactLang {
-				cands = append(cands, c.ContactLang)
+			if a == c.effLang() {
+				cands = append(cands, c.effLang())
 				break
 			}
 		}
@@ -468,7 +515,7 @@ func caseCoq(c *config, o *observed) string {
 		"     k_tr_text := %s; k_tr_atts := %s; k_tr_qrs := %s; k_tr_args := %s; k_tr_name := %s; k_tr_cat := %s;\n"+
 		"     k_o_text := %s; k_o_atts := %s; k_o_qrs := %s; k_o_lang := %s; k_o_setres := %s; k_o_matched := %s; k_o_catl := %s;\n"+
 		"     k_loc_langs := %s; k_o_bcast := %s |}",
-		hx.N(c.ContactLang), hx.List(c.Allowed, hx.N), hx.Str(c.BaseText), hx.List(c.BaseAtts, hx.Str), hx.List(c.BaseQRs, hx.Str), hx.List(c.BaseArgs, hx.Str),
+		hx.N(c.effLang()), hx.List(c.Allowed, hx.N), hx.Str(c.BaseText), hx.List(c.BaseAtts, hx.Str), hx.List(c.BaseQRs, hx.Str), hx.List(c.BaseArgs, hx.Str),
 		trCoq(c, "text"), trCoq(c, "attachments"), trCoq(c, "quick_replies"), trCoq(c, "arguments"), trCoq(c, "name"), trCoq(c, "category"),
 		hx.Str(o.Text), hx.List(o.Atts, hx.Str), hx.List(o.QRs, hx.Str), hx.N(o.Lang), hx.Str(o.SetResCatL), hx.Bool(o.RouterCat == "Bob"), hx.Str(o.RouterCatL),
 		hx.List(locLangs(c), hx.N), hx.List(o.Bcast, func(b bcastTr) string {
@@ -484,7 +531,9 @@ Definition cases : list lcase := [`
 func main() {
 	o := hx.ParseOpts()
 	res := hx.NewResult(o, "exhaustive product of contact language (5) x allowed-language list (10) x translation state of the "+
-		"message text in two languages (36) x presence of base attachments/quick replies (4); the states of the other "+
+		"message text in two languages (36) x presence of base attachments/quick replies (4); in every fourth configuration the "+
+		"flow first sends a message, enters a child flow that sets the contact language (cycling over unset and the four "+
+		"languages) and everything is observed afterwards in the parent run; the states of the other "+
 		"five properties cycle through all 36 combinations, and the state of a (stale) localization entry for the base "+
 		"language itself cycles through its 6 values per property; every configuration is distinct and counted once; "+
 		"non-trivial = at least one property has a stored translation in some language")
@@ -506,7 +555,10 @@ func main() {
 		for _, al := range allowedLists {
 			for ts := 0; ts < nStates*nStates; ts++ {
 				for pres := 0; pres < 4; pres++ {
-					c := &config{ContactLang: cl, Allowed: al, Tr: map[string][][]string{}, States: map[string][3]int{}}
+					c := &config{ContactLang: cl, Allowed: al, ChildLang: -1, Tr: map[string][][]string{}, States: map[string][3]int{}}
+					if k%4 == 3 {
+						c.ChildLang = (k / 4) % 5
+					}
 					c.BaseText = "hi"
 					c.BaseAtts = []string{}
 					if pres&1 != 0 {
